@@ -318,7 +318,8 @@ KERNELS += KERNELS_CONV
 
 CHK = ["--signed-overflow-check", "--div-by-zero-check", "--bounds-check", "--pointer-check", "--conversion-check"]
 VT = {"quick": [(1, 2), (3, 5), (4, 4), (8, 16)],
-      "thorough": [(v, t) for v in range(1, 9) for t in range(1, 9)] + [(8, 16), (16, 8), (12, 20), (32, 64), (96, 128)]}
+      # 8x8 grid until session 4; thinned after run #3 showed the tier exceeding two hours on a loaded machine (each (V,T) costs ~8 solver-minutes for get_offset alone)
+      "thorough": [(v, t) for v in (1, 2, 3, 5, 8) for t in (1, 2, 4, 7, 8)] + [(8, 16), (16, 8), (12, 20), (32, 64), (96, 128)]}
 PATH_VT = {"quick": [(3, 5)], "thorough": [(1, 1), (3, 5), (4, 4), (8, 16)]}
 LEMMA_VT = {"quick": [(1, 1), (3, 5), (7, 9), (8, 16), (96, 128)],
             "thorough": [(1, 1), (2, 3), (3, 5), (7, 9), (8, 16), (12, 20), (96, 128), (160, 192), (252, 344)]}
